@@ -105,7 +105,8 @@ func (h Handler) ServeHTTP(w http.ResponseWriter, r *http.Request) (int, error) 
 
 		// These criteria work well in this order for PHP sites
 		// We lower path and Ext as on Windows, the system is case insensitive, so .PHP is served as .php
-		if !h.exists(fpath) || fpath[len(fpath)-1] == '/' || strings.HasSuffix(strings.ToLower(fpath), strings.ToLower(rule.Ext)) {
+		// (fpath is empty for a request target without a path, "GET http://host HTTP/1.1")
+		if !h.exists(fpath) || strings.HasSuffix(fpath, "/") || strings.HasSuffix(strings.ToLower(fpath), strings.ToLower(rule.Ext)) {
 
 			// Create environment for CGI script
 			env, err := h.buildEnv(r, rule, fpath)
